@@ -12,7 +12,6 @@ from harness.props import c06 as K2
 ID = 'C18'
 TITLE = 'Circular references terminate and are reported on the cycle'
 PROPS = ['Props/C18']
-DISABLED = True
 RULE = ('search: dependency graphs over n <= 4 formula columns x 2 rows, column i = $D + (sum of $col over a subset of the '
         'columns) + i; thorough: ALL graphs (2 + 16 + 512 in fresh engines, all 65 536 graphs on 4 columns through '
         'ModifyColumn steps in long-lived engines), quick: all graphs on <= 2 columns and a sample on 3 and 4; each under the '
